@@ -8,7 +8,7 @@
     multiplications with their tables remain primitives, tied to Z mod L and to the model's double-and-add by
     differential execution only (partial). *)
 From Coq Require Import Field Bool.
-From PatVerif Require Import Model.Ed25519 Proofs.Ed25519P Model.Fe Proofs.FeP Model.EdPoint Proofs.EdPointP Model.Ecdsa Proofs.EcdsaP Model.Algebra Proofs.AlgebraP.
+From PatVerif Require Import Model.Ed25519 Proofs.Ed25519P Model.Fe Proofs.FeP Model.EdPoint Proofs.EdPointP Model.Radix16 Proofs.Radix16P Model.Naf Proofs.NafP Model.Ecdsa Proofs.EcdsaP Model.Algebra Proofs.AlgebraP.
 Open Scope N_scope.
 
 (** scalar.isReduced (byte-wise comparison with L-1 from the most significant byte) decides value < L,
@@ -85,6 +85,12 @@ Theorem field_sub : forall a b, limbs_lt 9223372036854775808 a -> limbs_lt 45035
   tight (fe_sub a b) /\ (fe_val (fe_sub a b) + fe_val b) mod fe_p = fe_val a mod fe_p.
 Proof. exact fe_sub_spec. Qed.
 Print Assumptions field_sub.
+
+(** Mult32 (exported by the field package; the point code does not use it): limbs below 2^51 + 2^38, value x*y *)
+Theorem field_mult32 : forall x y, loose x -> y < 4294967296 ->
+  limbs_lt (2251799813685248 + 274877906944) (fe_mult32 x y) /\ fe_val (fe_mult32 x y) mod fe_p = (fe_val x * y) mod fe_p.
+Proof. exact fe_mult32_spec. Qed.
+Print Assumptions field_mult32.
 
 (** reduce yields THE canonical representative, for any five uint64 limbs *)
 Theorem field_reduce_canonical : forall v, u64s v ->
@@ -179,6 +185,51 @@ Print Assumptions point_results_keep_extended_invariant.
 Theorem point_multiples_stay_bounded : forall n p, pt_ok p -> pt_ok (pt_mul n p).
 Proof. exact pt_mul_ok. Qed.
 Print Assumptions point_multiples_stay_bounded.
+
+(** Equal decides equality of projective points; Bytes is the encoding of the affine point (y little-endian, parity of
+    x in the top bit) with Z^(p-2) in the place of 1/Z; an accepted encoding decodes to a bounded point with Z = 1,
+    Y = the low 255 bits of the input, T = X*Y; hence no limb operation wraps anywhere in the model's verification *)
+Theorem point_equal_decides_projective_equality : forall v u, pt_ok v -> pt_ok u ->
+  (pt_equal v u = true <->
+   eqp (fz (px v) * fz (pz u)) (fz (px u) * fz (pz v)) /\ eqp (fz (py v) * fz (pz u)) (fz (py u) * fz (pz v))).
+Proof. exact pt_equal_spec. Qed.
+Print Assumptions point_equal_decides_projective_equality.
+
+Theorem point_bytes_is_the_affine_encoding : forall v, pt_ok v ->
+  pt_bytes v = set_top_bit (le_bytes 32 ((fe_val (py v) * fe_val (pz v) ^ (fe_p - 2)) mod fe_p))
+                           (((fe_val (px v) * fe_val (pz v) ^ (fe_p - 2)) mod fe_p) mod 2).
+Proof. exact pt_bytes_spec. Qed.
+Print Assumptions point_bytes_is_the_affine_encoding.
+
+Theorem point_decoding_yields_bounded_points : forall x p, length x = 32%nat -> pt_set_bytes x = Some p ->
+  pt_ok p /\ fe_val (py p) = le_val x mod 2 ^ 255 /\ pz p = fe_one /\ eqp (fz (pt p)) (fz (px p) * fz (py p)).
+Proof. exact pt_set_bytes_ok. Qed.
+Print Assumptions point_decoding_yields_bounded_points.
+
+Theorem verification_in_the_model_never_wraps : forall pk A k S, length pk = 32%nat -> pt_set_bytes pk = Some A ->
+  pt_ok (pt_add (pt_mul k (pt_neg A)) (pt_mul S ed_base)).
+Proof. exact edm_verify_point_bounded. Qed.
+Print Assumptions verification_in_the_model_never_wraps.
+
+(** Scalar.signedRadix16 (the digits ScalarMult and ScalarBaseMult consume): for every 32-byte scalar below 2^255 the
+    64 digits represent the scalar (sum d_i 16^i), all but the last lie in [-8, 8) and the last in [0, 8] — so every
+    table lookup of the scalar multiplications is within the 8 precomputed multiples — and every intermediate of the
+    int8 arithmetic fits *)
+Theorem signed_radix16_represents_the_scalar : forall s, length s = 32%nat -> (b2n (nth 31 s x00) <= 127)%N ->
+  length (signed_radix16 s) = 64%nat /\
+  eval16 (signed_radix16 s) = Z.of_N (le_val s) /\
+  (forall k, (k < 63)%nat -> (-8 <= nth k (signed_radix16 s) 0 < 8)%Z) /\
+  (0 <= nth 63 (signed_radix16 s) 0 <= 8)%Z.
+Proof. exact signed_radix16_of_scalar. Qed.
+Print Assumptions signed_radix16_represents_the_scalar.
+
+(** Scalar.nonAdjacentForm(w) (the digits the variable-time double scalar multiplication of Verify consumes, w = 5 and
+    w = 8): for every scalar below 2^255 and every width 2..8 the 256 digits represent the scalar (no carry is lost at
+    the top) and every non-zero digit is odd and lies strictly between -2^(w-1) and 2^(w-1) *)
+Theorem naf_represents_the_scalar : forall w x, (2 <= w <= 8)%Z -> (0 <= x < 2 ^ 255)%Z ->
+  length (naf w x) = 256%nat /\ ev2 (naf w x) = x /\ Forall (digit_ok w) (naf w x).
+Proof. exact naf_spec. Qed.
+Print Assumptions naf_represents_the_scalar.
 
 (** the base point decoded by the model is bounded; doubling and adding it to itself give the same point *)
 Example point_examples :
